@@ -12,7 +12,7 @@ from . import c04
 from geophires_x.OptionList import EndUseOptions, PlantType, EconomicModel, ReservoirModel
 
 ID = 'C09'
-FUNCTIONS = ['geophires_x.Outputs:Outputs.PrintOutputs', 'geophires_x.Outputs:Outputs._field_label']
+FUNCTIONS = ['geophires_x.Outputs:Outputs.PrintOutputs', 'geophires_x.Outputs:Outputs._field_label', 'geophires_x.OutputsRich:print_outputs_rich']
 UNIT_TIMEOUT = {'quick': 280, 'thorough': 1500}
 CONFIGS = {
     'quick': [('electricity', 2, 2, 1, {}), ('direct-use', 2, 2, 1, {'em': 1}), ('chiller', 2, 1, 1, {'em': 3}), ('heat-pump', 2, 2, 2, {}), ('district-heating', 2, 1, 1, {}),
